@@ -838,7 +838,7 @@ Proof.
   intros HQ. unfold finish_conn, bind, set_mod, modify, get, ret. cbv beta.
   assert (Q1 : Q0 (with_mods s (upd_mod c mm_connected (mods s)))).
   { apply (Q_keep s); [exact HQ|reflexivity| |cbn; lia]. intros x Hx. cbn [mods with_mods]. rewrite (find_upd_field m_closed c x mm_connected); auto; intro; reflexivity. }
-  destruct (m_logger _); cbn [qres]; [|exact Q1]. apply (Q_keep _ _ Q1); auto. cbn. lia.
+  destruct (m_logger _ && m_reg _); cbn [qres]; [|exact Q1]. apply (Q_keep _ _ Q1); auto. cbn. lia.
 Qed.
 
 Lemma phase2_q c s : RegInv s -> DynInv s -> Q0 s -> m_reg (find_mod c (mods s)) = true -> qres (phase2 cfg FUEL c s).
